@@ -46,8 +46,10 @@ inline u64 mix64(u64 x) noexcept {
   x = (x ^ (x >> 27)) * 0x94D049BB133111EBULL;
   return x ^ (x >> 31);
 }
+// both inputs are mixed before they meet: the boost-style "h ^ (v + C + (h<<6) + (h>>2))"
+// collides for small h and v (it once made the linearizability memo drop a state)
 inline u64 hash_combine(u64 h, u64 v) noexcept {
-  return mix64(h ^ (v + 0x9E3779B97F4A7C15ULL + (h << 6) + (h >> 2)));
+  return mix64(mix64(h) + 0x9E3779B97F4A7C15ULL * (mix64(v ^ 0xD1B54A32D192ED03ULL) | 1));
 }
 inline u64 hash_bytes(const void* p, std::size_t n, u64 h = 0x1234567) noexcept {
   const auto* b = static_cast<const unsigned char*>(p);
